@@ -665,8 +665,11 @@ def rule_k(res: Results, idx: Index) -> None:
                 cands = [g for g in list(ctxm.funcs.values()) + list(m.funcs.values()) if g.name == nm]
                 if any(is_input_packer(g.node) for g in cands):
                     found = (s, nm)
+        creator = idx.func(CTXF, "IRContext.add_input_for_invar")
         if found:
             res.ok("R-C05k", f"{CAPI_}:{found[0].lineno}", key, f"`{found[1]}` re-types complex graph inputs that are still native after lowering, before the outputs are bound", fi.qualname)
+        elif creator is not None and _mentions_complex(creator.node):
+            res.ok("R-C05k", f"{CTXF}:{creator.node.lineno}", key, "graph inputs are declared as a pair of reals when they are created (add_input_for_invar tests for a complex element type)", fi.qualname)
         else:
             anywhere = [c for c in ast.walk(fi.node) if isinstance(c, ast.Call) and any(is_input_packer(g.node) for g in list(ctxm.funcs.values()) + list(m.funcs.values()) if g.name == (call_name(c) or "").split(".")[-1])]
             if anywhere:
